@@ -562,3 +562,79 @@ pub fn many_ops_cases() -> Vec<SeqCase> {
     }
     out
 }
+
+/// Texts with exactly N tokens on the old side and N + 1 on the new side for N at and around the powers
+/// of two from 64 to 8192 (one token replaced in the middle, one appended), for the line, word and
+/// char tokenizers and every algorithm (LCS up to 1025 tokens): size thresholds inside the text paths
+pub fn pow2_text_cases() -> Vec<TextCase> {
+    let mut out = vec![];
+    for k in 6..=13u32 {
+        for d in [-1i64, 0, 1] {
+            let n = ((1i64 << k) + d) as usize;
+            for tok in 0..3u8 {
+                let token = |i: usize| -> String {
+                    match tok {
+                        0 => format!("l{}\n", i % 97),
+                        1 => {
+                            if i % 2 == 0 {
+                                format!("w{}", (i / 2) % 50)
+                            } else {
+                                " ".to_string()
+                            }
+                        }
+                        _ => ["a", "b", "\u{e9}", "c", "\u{65e5}"][i % 5].to_string(),
+                    }
+                };
+                let old_t: Vec<String> = (0..n).map(token).collect();
+                let mut new_t = old_t.clone();
+                let mid = (n / 2) & !1; // an even index: a word, not a separator
+                new_t[mid] = match tok {
+                    0 => "changed\n".to_string(),
+                    1 => "CHANGED".to_string(),
+                    _ => "z".to_string(),
+                };
+                new_t.push(match tok {
+                    0 => "tail\n".to_string(),
+                    1 => {
+                        if n % 2 == 0 {
+                            "tail".to_string()
+                        } else {
+                            " ".to_string()
+                        }
+                    }
+                    _ => "y".to_string(),
+                });
+                for alg in 0..3u8 {
+                    if alg == 2 && n > 1025 {
+                        continue;
+                    }
+                    out.push(TextCase { old: BStr(old_t.concat().into_bytes()), new: BStr(new_t.concat().into_bytes()), tok, alg, bytes: n % 2 == 0, opt: 0 });
+                }
+            }
+        }
+    }
+    out
+}
+
+/// Sequences of exactly N / N + 1 items for N at and around the powers of two from 64 to 8192 (one
+/// item replaced in the middle, one appended; a 7-letter alphabet, so repeats abound), per algorithm
+/// (LCS up to `lcs_max` items): size thresholds inside the algorithms and the clean-up
+pub fn pow2_seq_cases(lcs_max: usize) -> Vec<SeqCase> {
+    let mut out = vec![];
+    for k in 6..=13u32 {
+        for d in [-1i64, 0, 1] {
+            let n = ((1i64 << k) + d) as usize;
+            let a = lcg_seq(100 + n as u64, n, 7);
+            let mut b = a.clone();
+            b[n / 2] = 9;
+            b.push(8);
+            for alg in 0..3u8 {
+                if alg == 2 && n > lcs_max {
+                    continue;
+                }
+                out.push(SeqCase::full(alg, a.clone(), b.clone()));
+            }
+        }
+    }
+    out
+}
